@@ -76,3 +76,34 @@ Print Assumptions C12_protected.
 Print Assumptions C12_upper.
 Print Assumptions C12_lower.
 Print Assumptions C12_no_dup.
+
+(* ---- the model's comparisons are the ones the source writes now (Gen/Sites.v is regenerated from /repo on every run) ---- *)
+From ZC Require Import Model.PyRec Model.Cache Model.Respond Gen.Const Gen.DnsPure Gen.Sites Proofs.Sites_C12.
+Theorem C12_site_last_second : forall c now r,
+  has_mcast_record_in_last_second c now r =
+  match async_get_unique c r with
+  | Some e => sop_apply site_resp_last_second (now - DNSRecord_created e) site_resp_last_second_rhs
+  | None => false end.
+Proof. exact tie_last_second. Qed.
+Theorem C12_site_merge : forall q now tnow rnd a g gs,
+  q_groups q = g :: gs ->
+  let send_after := now + (rnd + q_additional q) in
+  let lastg := last (g :: gs) {| g_after := 0; g_before := 0; g_answers := [] |} in
+  length (q_groups (async_add q now tnow rnd a)) =
+  if sop_apply site_oq_merge send_after (g_after lastg) then length (g :: gs) else S (length (g :: gs)).
+Proof. exact tie_async_add_merge. Qed.
+Theorem C12_site_due : forall g r now acc,
+  pop_due (g :: r) now acc =
+  if sop_apply site_oq_ready_due (g_after g) now then pop_due r now (a_update acc (g_answers g)) else (g :: r, acc).
+Proof. exact tie_pop_due. Qed.
+Theorem C12_site_wait : forall q now g0 g1 gs,
+  q_groups q = g0 :: g1 :: gs ->
+  sop_apply site_oq_ready_wait (g_before g0) now = true ->
+  snd (async_ready_body q now) = None /\ q_groups (fst (async_ready_body q now)) = q_groups q.
+Proof. exact tie_ready_wait. Qed.
+Theorem C12_site_ops : sites_C12_ops. Proof. exact sites_C12_ops_ok. Qed.
+Print Assumptions C12_site_last_second.
+Print Assumptions C12_site_merge.
+Print Assumptions C12_site_due.
+Print Assumptions C12_site_wait.
+Print Assumptions C12_site_ops.
